@@ -131,6 +131,21 @@ def r152(ctx, rep):
             rep.held('R15.2', fn, '**csvargs', 'passed on', calls[0])
         else:
             rep.violated('R15.2', fn, '**csvargs', 'the csv formatting arguments are not handed on', fn.node)
+    from .c16 import _all_forwarded
+    from ..report import Report
+    sub = Report('C16', ctx.tier, ctx.root)
+    for wname, callee in (('fromcsv', 'fromcsv_impl'), ('fromtsv', 'fromcsv'), ('tocsv', 'tocsv_impl'), ('totsv', 'tocsv'),
+                          ('appendcsv', 'appendcsv_impl'), ('appendtsv', 'appendcsv')):
+        fn = mod.functions.get(wname)
+        calls = [n for n in own_nodes(fn.node) if isinstance(n, ast.Call) and norm(n.func) == callee]
+        if len(calls) != 1:
+            rep.violated('R15.2', fn, callee + '(...)', 'expected exactly one delegation to %s' % callee, fn.node)
+            continue
+        _all_forwarded(sub, fn, calls[0])
+    for o in sub.obligations:
+        if o.construct.split('=')[-1].rstrip(')') in ('table',):
+            continue
+        rep.add('R15.2', (o.module, o.qualname), o.construct, o.status, o.message, o.lineno, o.detail)
     for fq, target in (('petl.io.csv_py3:CSVView.__iter__', 'csv.reader'), ('petl.io.csv_py3:_writecsv', 'csv.writer'),
                        ('petl.io.csv_py3:TeeCSVView.__iter__', 'csv.writer')):
         fn = ctx.project.need_fn(fq)
